@@ -218,8 +218,28 @@ def rule_m7(repo):
     return rule_v4(repo, 'C04.M7')
 
 
+def rule_m13(repo):
+    """Expansions bottom out in the theorems of the library; those stated without proof are axioms.  Every
+    statement in the decidable fragment (sa/libcheck.py) must hold in every row of its small-domain table."""
+    from ..libcheck import check_library
+    res = RuleResult('C04.M13', 'the stated theorems of the library that expansions rest on hold for all small values of their variables', floor=750)
+    files, rows = check_library(repo)
+    need(files >= 30, 'library/*.json: only %d theory files readable' % files)
+    outside = 0
+    for rel, name, prop, verdict, detail in rows:
+        if verdict == 'outside':
+            outside += 1
+            continue
+        res.add('%s :: %s' % (rel, name), verdict == 'holds',
+                detail if verdict == 'holds' else 'the statement `%s` is false for %s -- every theory that imports this file can derive anything from it' % (prop, detail),
+                rel, nontrivial=False)
+    res.info['statements_outside_the_fragment'] = outside
+    res.info['theory_files'] = files
+    return res
+
+
 def rules(repo):
     m1 = mr.hyps_rule(repo, 'C04.M1', mr.all_macros, floor=95)
     m2 = mr.zip_rule(repo, 'C04.M2', mr.macro_eval_functions(repo), floor=4)
     return [m1, m2, rule_m3(repo), rule_m5(repo), rule_m6(repo), rule_m7(repo), rule_m8(repo), rule_m9(repo), rule_m10(repo), mr.expansion_uses_rule(repo, 'C04.M11', mr.all_macros, floor=25),
-            mr.argument_dependence_rule(repo, 'C04.M12', mr.all_macros, floor=30)]
+            mr.argument_dependence_rule(repo, 'C04.M12', mr.all_macros, floor=30), rule_m13(repo)]
